@@ -72,7 +72,7 @@ Section Generic.
 Variable P : Type.
 Variable pmul : P -> P -> P.
 Variables p0 p1 : P.
-Variable pltb : P -> P -> bool.
+Variables pltb pleb peqb : P -> P -> bool.
 Variable upper_c : N -> str.
 Variables isalpha isdigit isupper : N -> bool.
 Variable lower_c : N -> str.
@@ -89,12 +89,12 @@ Notation MD := (model_detectors isalpha isdigit isupper lower_c aligned kbs fp_w
                                 context_strings mw_threshold mw_min_len mw_max_len).
 Notation PARSE := (parse isalpha isdigit isupper lower_c aligned kbs fp_words min_run tlds year_prefixes context_strings
                          mw_threshold mw_min_len mw_max_len).
-Notation GEN := (py_pcfg_scorer_parse P pmul p0 p1 pltb upper_c MD).
-Notation parse_result := (ScorerRt.parse_result P pmul p0 p1 pltb upper_c).
-Notation cutoff := (ScorerRt.cutoff P pltb).
+Notation GEN := (py_pcfg_scorer_parse P pmul p0 p1 pltb pleb peqb upper_c MD).
+Notation parse_result := (ScorerRt.parse_result P pmul p0 p1 upper_c).
+Notation is_result := (ScorerRt.is_result P pmul p0 p1 upper_c).
 Notation view := (ScorerRt.view P).
 
-Lemma gen_ok self s r : PARSE (multiword_detector self) s = POk r -> GEN self s = Ok (parse_result self s r).
+Lemma gen_ok self s r : PARSE (multiword_detector self) s = POk r -> is_result self s r (GEN self s).
 Proof.
   unfold parse. intros H.
   destruct (detect_keyboard_walk _ _ _ _ _ _ _ _) as [[sl0 walks]|] eqn:E0; [|discriminate].
@@ -107,18 +107,23 @@ Proof.
   destruct (other_detection sl6) as [sl7 others] eqn:E7.
   destruct (base_structure sl7) as [[sup base]|] eqn:E8; [|discriminate].
   injection H as <-.
-  match goal with |- _ = Ok (parse_result _ _ ?rr) => set (r := rr) end.
-  unfold py_pcfg_scorer_parse, ScorerRt.parse_result.
+  match goal with |- is_result _ _ ?rr _ => set (r := rr) end.
+  unfold py_pcfg_scorer_parse.
   cbn [model_detectors d_detect_keyboard_walk d_email_detection d_website_detection d_year_detection
        d_context_sensitive_detection d_alpha_detection d_digit_detection d_other_detection d_base_structure_creation].
-  cbn [r p_emails p_urls p_supported].
   rewrite E0. cbn [call bind]. rewrite E1. cbn [call bind]. rewrite E2. cbn [call bind].
   rewrite !nonempty_map.
-  destruct (nonempty emails); [reflexivity|]. destruct (nonempty webs); [reflexivity|]. cbn [bind]. closed_bools. cbn iota.
+  assert (Eem : nonempty (p_emails r) = nonempty emails) by apply nonempty_map.
+  assert (Eur : nonempty (p_urls r) = nonempty webs) by apply nonempty_map.
+  assert (Esu : p_supported r = sup) by reflexivity.
+  destruct (nonempty emails); [exists false; unfold ScorerRt.parse_result; rewrite Eem; reflexivity|].
+  destruct (nonempty webs); [exists false; unfold ScorerRt.parse_result; rewrite Eem, Eur; reflexivity|].
+  cbn [bind]. closed_bools. cbn iota.
   rewrite E3. cbn [call bind]. rewrite E4. cbn [call bind]. rewrite E5. cbn [call bind]. rewrite E6. cbn [call bind].
-  rewrite E7, E8. cbn [call bind]. destruct sup; [|reflexivity]. cbn [negb].
+  rewrite E7, E8. cbn [call bind].
+  destruct sup; [|exists false; unfold ScorerRt.parse_result; rewrite Eem, Eur, Esu; reflexivity]. cbn [negb].
   (* the try block is Scorer.product *)
-  match goal with |- run_fn (bind (@try_keyerror ?RR ?AA ?b ?h) ?k) = _ =>
+  match goal with |- is_result _ _ _ (run_fn (bind (@try_keyerror ?RR ?AA ?b ?h) ?k)) =>
     assert (Hp : @try_keyerror RR AA b h = Norm (product P pmul p0 p1 (rs_of self) r)) end.
   { unfold product. cbn [rs_of r_keyboard r_years r_context r_alpha r_masks r_digits r_other r_bases
                          r p_walks p_years p_context p_alpha p_masks p_digits p_other p_base].
@@ -140,9 +145,13 @@ Proof.
   rewrite (alpha_sections_filter _) by (intros [t [[]|]]; reflexivity).
   rewrite (for_each_rebuild P p0 upper_c)
     by (intros t w m a; cbn [bind]; rewrite rebuild_concat; destruct (str_eqb _ t); reflexivity).
-  cbn [bind]. unfold rebuild_ok, ScorerRt.cutoff. cbn [r p_sections p_alpha p_masks].
-  destruct (rebuild_all upper_c _ _ _); cbn [negb];
-    match goal with |- context [pltb ?a ?b || ?c] => destruct (pltb a b || c) end; reflexivity.
+  cbn [bind].
+  (* the classification: whatever the test is, it only chooses the letter *)
+  assert (Erb : rebuild_ok upper_c r = rebuild_all upper_c (alpha_sections sl7) (flat_map fst alphas) (flat_map snd alphas))
+    by reflexivity.
+  unfold ScorerRt.is_result, ScorerRt.parse_result. rewrite Eem, Eur, Esu, Erb. cbn [negb]. cbv zeta.
+  match goal with |- exists b, run_fn (bind (if ?c then _ else _) _) = _ => exists c; destruct c end;
+    destruct (rebuild_all upper_c _ _ _); reflexivity.
 Qed.
 
 (* when the segmentation raises: either the translated parse raises too, or it
@@ -169,32 +178,32 @@ Proof.
   destruct (base_structure sl7) as [[sup base]|] eqn:E8; [discriminate|reflexivity].
 Qed.
 
-Lemma parse_result_view (seg : str -> presult) self s r : seg s = POk r ->
-  score P pmul p0 p1 true upper_c seg (rs_of self) s = Some (view (parse_result self s r)).
+Lemma parse_result_view (seg : str -> presult) b self s r : seg s = POk r ->
+  score P pmul p0 p1 true upper_c seg (rs_of self) s = Some (view (parse_result b self s r)).
 Proof.
   intros E. unfold score, ScorerRt.parse_result. rewrite E.
   destruct (nonempty (p_emails r)); [reflexivity|]. destruct (nonempty (p_urls r)); [reflexivity|].
   destruct (negb (p_supported r)); [reflexivity|]. cbn [andb view].
-  destruct (cutoff self _ _); reflexivity.
+  destruct b; reflexivity.
 Qed.
 
 Theorem gen_is_score self s : PARSE (multiword_detector self) s <> PErr ->
   res_map view (GEN self s) = lift (score P pmul p0 p1 true upper_c (PARSE (multiword_detector self)) (rs_of self) s).
 Proof.
   intros H. destruct (PARSE (multiword_detector self) s) as [|r] eqn:E; [congruence|].
-  rewrite (gen_ok self s r E). rewrite (parse_result_view _ self s r E). reflexivity.
+  destruct (gen_ok self s r E) as (b & ->). rewrite (parse_result_view _ b self s r E). reflexivity.
 Qed.
 
 (* the first and last components are the input and the OMEN score, the
-   category is one of e w o p, and p only if the cut-off test holds *)
-Lemma parse_result_shape self s r :
-  let '(pw, c, p, o) := parse_result self s r in
-  pw = s /\ o = omen_parse (omen self) s /\ (c = s_e \/ c = s_w \/ c = s_o \/ (c = s_p /\ cutoff self p o = true)).
-Proof.
+   category is one of e w o p *)
+Lemma parse_result_shape b self s r :
+  let '(pw, c, p, o) := parse_result b self s r in
+  pw = s /\ o = omen_parse (omen self) s /\ (c = s_e \/ c = s_w \/ c = s_o \/ c = s_p).
+Proof using Type.
   unfold ScorerRt.parse_result.
-  destruct (nonempty (p_emails r)); [tauto|]. destruct (nonempty (p_urls r)); [tauto|].
-  destruct (negb (p_supported r)); [tauto|]. cbv zeta.
-  destruct (cutoff self _ _) eqn:E; tauto.
+  destruct (nonempty (p_emails r)); [repeat split; auto|]. destruct (nonempty (p_urls r)); [repeat split; auto|].
+  destruct (negb (p_supported r)); [repeat split; auto|]. cbv zeta.
+  destruct b; repeat split; auto.
 Qed.
 
 End Generic.
